@@ -255,7 +255,7 @@ structure Obs where
 
 def Obs.auth (o : Obs) : Bool := authorised o.lh o.before.faces o.face o.name
 def Obs.changed (o : Obs) : Bool := !o.before.same o.after
-def Obs.hasP (o : Obs) : Bool := 5 ≤ o.name.length
+def Obs.hasP (o : Obs) : Bool := hasParams o.name
 def Obs.requesterGone (o : Obs) : Bool := (faceGet o.after.faces o.face).isNone
 
 /-- live: the daemon survived -/
